@@ -167,7 +167,7 @@ CHECKS = {
                   'explicit #id), name, class and fields with conditions; lookups by id/name/class.  Deductive, per constructor whose '
                   'field types the library can express (738 of 796; excluded: double, int32/int53/int64, secure*, vector<T>, Object/Function '
                   'fields - listed in the evidence) x every flag subset (<=3 flag bits exhaustive, else all/none/singles) x rotations over '
-                  'bytes/string lengths {0,1,2,3,4,252..257,1000,65540} (framing boundary 253/254 and all padding residues), vector '
+                  'bytes/string lengths {0,1,2,3,4,252..257,1000,5000} (every length for the 67 single-bytes-field constructors: C14.symlen) (framing boundary 253/254 and all padding residues), vector '
                   'lengths 0..2, Bool values and boxed alternatives: serialize(schema, v) == TL encoding and deserialize(encoding) == '
                   '(v, len), with all integers, hashes and byte contents SYMBOLIC; nested objects inside bytes fields in auto-deserialise '
                   'mode; BlockId/BlockIdExt bytes and dict round trips, int hash, equal ids hash equally.  Level other because string/bytes '
